@@ -1088,6 +1088,10 @@ impl<'a, C: MlsConfig> Hist<'a, C> {
                     }
                 }
             }
+            if let Some(r) = crate::eks::extpub_row(self.w.group(c)) {
+                self.rep.cover.insert("extpub".into());
+                rows.push(r);
+            }
             if let Some(op) = &eks_opener {
                 let vals = crate::eks::PskValues { external: self.w.psks.clone(), resumption: Default::default() };
                 match crate::eks::row(&eks_before, op, &self.w.msgs[cmi].msg, self.w.group(c), &vals) {
